@@ -441,10 +441,16 @@ def run(ctx):
             if ok_ in envvars and _holder_getter(G, wrappers, x):
                 envvars[F.keys.key(x)] = envvars[ok_]
     n_ov = 0
+
+    def _str_assign(x):
+        # name = <env value> where name is a std::string (operator=)
+        return x.get('kind') == 'CXXOperatorCallExpr' and callee(x) and callee(x)[0] == 'fn' and callee(x)[1].get('name') == 'operator=' and \
+            len(call_args(x)) == 2 and F.keys.key(_strip_ctor(call_args(x)[1])) in envvars
     for x in walk(f):
         is_ret = x.get('kind') == 'ReturnStmt' and f is not f_local and kids(x) and F.keys.key(_strip_ctor(kids(x)[0])) in envvars
-        if is_ret or (x.get('kind') == 'BinaryOperator' and x.get('opcode') == '=' and F.keys.key(kids(x)[1]) in envvars):
-            vk = F.keys.key(_strip_ctor(kids(x)[0])) if is_ret else F.keys.key(kids(x)[1])
+        if is_ret or _str_assign(x) or (x.get('kind') == 'BinaryOperator' and x.get('opcode') == '=' and F.keys.key(kids(x)[1]) in envvars):
+            vk = F.keys.key(_strip_ctor(kids(x)[0])) if is_ret else F.keys.key(_strip_ctor(call_args(x)[1])) if _str_assign(x) else \
+                F.keys.key(kids(x)[1])
             n_ov += 1
             fs = F.facts_at_ast(x) or frozenset()
             about = [ft for ft in fs if vk in ft[1] or vk in ft[2]]
@@ -453,6 +459,24 @@ def run(ctx):
                       '$%s is ignored for some values although it is set (extra condition %s): an empty value must be used as given '
                       '(and then fails over to UTC)' % (envvars[vk], [ft for ft in about if not (ft[0] == '!=' and 'null' in ft[1:])]),
                       construct='env-override:%s' % envvars[vk], detail=str(sorted(about))[:80])
+    # the override written as the initialiser of the name:  std::string name = tz_env ? tz_env : default_zone;
+    cond_inits = []
+    for x in walk(f):
+        if x.get('kind') == 'VarDecl' and kids(x) and 'init' in x:
+            i_ = _strip_ctor(kids(x)[-1])
+            if i_ is not None and i_.get('kind') == 'ConditionalOperator':
+                c_, a_, b_ = kids(i_)
+                ak_ = F.keys.key(_strip_ctor(a_))
+                if ak_ in envvars:
+                    n_ov += 1
+                    cf_ = F.cond_facts(c_, True)
+                    about = [ft for ft in cf_ if ak_ in ft[1] or ak_ in ft[2]]
+                    only_set = bool(about) and all(ft[0] == '!=' and set(ft[1:]) == set((ak_, 'null')) for ft in cf_)
+                    ctx.check(only_set, 'C19-env', '$%s overrides whenever it is set' % envvars[ak_], x,
+                              '$%s is ignored for some values although it is set (the name is initialised from it only under %s): an '
+                              'empty value must be used as given' % (envvars[ak_], cf_), construct='env-override:%s' % envvars[ak_],
+                              detail=str(sorted(about))[:80])
+                    cond_inits.append((x, envvars[ak_]))
     # (a value handed to a file-local helper -- wrapped in a pointer+length record, say -- is not followed)
     handed_on = False
     for x in walk(f):
@@ -466,17 +490,33 @@ def run(ctx):
     # with "localtime", the name handed to the loader) passes the test of its first character against ':'
     g = ctx.cfg(f)
     for x in walk(f):
-        if not (x.get('kind') == 'BinaryOperator' and x.get('opcode') == '=' and F.keys.key(kids(x)[1]) in envvars and
-                envvars[F.keys.key(kids(x)[1])] == 'TZ'):
+        if _str_assign(x) and envvars[F.keys.key(_strip_ctor(call_args(x)[1]))] == 'TZ':
+            lhs_ = call_args(x)[0]
+        elif x.get('kind') == 'BinaryOperator' and x.get('opcode') == '=' and F.keys.key(kids(x)[1]) in envvars and \
+                envvars[F.keys.key(kids(x)[1])] == 'TZ':
+            lhs_ = kids(x)[0]
+        elif any(x is d_ and v_ == 'TZ' for (d_, v_) in cond_inits):
+            lhs_ = None
+        else:
             continue
-        zk = F.keys.key(kids(x)[0])
-        zid = (peel(kids(x)[0]).get('referencedDecl') or {}).get('id')
+        zk = F.keys.key(lhs_) if lhs_ is not None else '%s#%s' % (x.get('name'), x['id'])
+        zid = (peel(lhs_).get('referencedDecl') or {}).get('id') if lhs_ is not None else x['id']
         strips = []
         for n in g.live:
             if n.kind != 'cond':
                 continue
             for (op, a, b) in list(F.cond_facts(n.ast, True)) + list(F.cond_facts(n.ast, False)):
                 if op in ('==', '!=') and 'n:58' in (a, b) and (a if b == 'n:58' else b) in ('*(%s)' % zk, '%s[n:0]' % zk, '*%s' % zk):
+                    strips.append(n)
+        # (`!name.empty() && name.front() == ':'`: an empty name has no first character to test)
+        for n in g.live:
+            if n.kind == 'cond' and n.ast is not None and ('%s.empty()' % zk) in F.keys.key(n.ast):
+                nxt = []
+                for (m_, _l) in n.succs:
+                    while m_.kind == 'join' and len(m_.succs) == 1:
+                        m_ = m_.succs[0][0]
+                    nxt.append(m_)
+                if any(any(m_ is s_ for s_ in strips) for m_ in nxt):
                     strips.append(n)
         uses = []
         for y in walk(f):
